@@ -196,6 +196,10 @@ func (handler *Handler) loadByteArray(source []byte) (net1 *dhcpSubnet, net2 *dh
 		}
 	}
 
+	if len(table.Leases) > 0 && (net1 == nil || net2 == nil) {
+		return nil, nil, nil, fmt.Errorf("fail to load leases : missing subnet configuration")
+	}
+
 	tt := map[string]*Lease{}
 
 	// Careful: Yaml does not set private fields in unmarshaled structured.
